@@ -65,6 +65,10 @@ string extractFuncname( const string& pretty_funcname)
    {
       auto const  first_char = first_parenthesis + 23;
       first_parenthesis = pretty_funcname.find_first_of( '(', first_char);
+      // operator()(....
+      if ((first_parenthesis != string::npos)
+          && (pretty_funcname.compare( first_parenthesis, 3, "()(") == 0))
+         first_parenthesis += 2;
       return pretty_funcname.substr( first_char, first_parenthesis - first_char);
    } // end if
 #else
